@@ -233,7 +233,7 @@ contract("CuckooFilter._parse_footer", contexts=["CuckooFilter"], properties=["C
                   ("capacity_is_the_number_of_whole_buckets", "self._cuckoo_capacity == (len(d) - 8) // 4 // self._bucket_size")])
 
 contract("CuckooFilter.export@path", contexts=["CuckooFilter"], properties=["C05", "C15", "C06"],
-         params={"file": "key"}, requires=_CKX + [("a_path_is_given", "isinstance(file, str) and file != ''")], modifies=["fs"],
+         params={"file": "key"}, loops={0: {"unreached": True}}, requires=_CKX + [("a_path_is_given", "isinstance(file, str) and file != ''")], modifies=["fs"],
          ensures=[("file_holds_exactly_the_documented_export",
                    "file_exists(resolve(file)) and len(file_bytes(resolve(file))) == 4 * smul(self._cuckoo_capacity, self._bucket_size) + 8 "
                    "and ck_image(self, file_bytes(resolve(file)), 0)")])
